@@ -275,7 +275,19 @@ fn main() {
     run.finish(json!({"evaluations":1,"distinct_nontrivial":2,"rule":"replay","samples":[input]}), vec![]);
   }
   let files = corpus::all_files();
-  let files = if run.quick() { corpus::smallest(files, 25) } else { files };
+  let files = if run.quick() {
+    // the 25 smallest files plus every corpus/bind program (they exist for particular shapes)
+    let bind: Vec<corpus::CorpusFile> = files.iter().filter(|f| f.name.starts_with("corpus/bind/")).cloned().collect();
+    let mut small = corpus::smallest(files, 25);
+    for b in bind {
+      if !small.iter().any(|f| f.name == b.name) {
+        small.push(b);
+      }
+    }
+    small
+  } else {
+    files
+  };
   let mut bases: Vec<(String, String)> = files.iter().map(|f| (f.name.clone(), f.text.clone())).collect();
   let l0 = exprgen::level(0, &[]);
   let l1 = exprgen::level(1, &l0[..2]);
